@@ -104,6 +104,10 @@ struct Model {
     bool singleLabel = false; // label type with a single value (empty struct): every label equals every other
     size_t n = 0;
     std::map<UPair, MVal> e;
+    // graph-shaped cases: sum of |w| over every weight ever applied while the graph was built, and the number of such
+    // applications (the rounding error of a running total scales with the history, not with what is left)
+    long double absHistory = 0;
+    size_t opsHistory = 0;
 
     UPair key(unsigned i, unsigned j) const {
         if (!directed && i > j)
